@@ -6,6 +6,8 @@ Factory calls inside an iteration engine: what `UnaryOperation.apply` (no prefer
 import DafRel.Model.Apply
 import DafRel.Lemmas.FinishApply
 import DafRel.Lemmas.Exec
+import DafRel.Lemmas.ListOps
+import DafRel.Spec.History
 
 namespace DafRel
 
@@ -299,10 +301,6 @@ theorem finishApply_iterOK (t : Rel) (op : UOp) (res : Res) (ht : t.IterOK) (hop
 
 /-! #### key-determined inputs of deduplications -/
 
-def UOp.isDedup : UOp → Bool
-  | .dedup => true
-  | _ => false
-
 theorem simplify_notDedup (new up s : UOp) (h : new.simplify up = .ok (.replace s))
     (_ : new.isDedup = false) (_ : True) : s.isDedup = false := by
   unfold UOp.simplify at h
@@ -384,33 +382,6 @@ theorem UOp.appliedColumns_congr (op : UOp) (c1 c2 : Cols) (h : ∀ x, x ∈ c1 
   intro x
   cases op <;> simp only [UOp.appliedColumns, Cols.mem_insert, h]
 
-theorem agree_congr (a b : Row) (c1 c2 : Cols) (h : ∀ x, x ∈ c1 ↔ x ∈ c2) :
-    a.agree b c1 = a.agree b c2 := by
-  rw [Bool.eq_iff_iff]
-  simp only [Row.agree, List.all_eq_true]
-  exact ⟨fun g t ht => g t ((h t).mpr ht), fun g t ht => g t ((h t).mp ht)⟩
-
-theorem keys_congr (c1 c2 : Cols) (h : ∀ x, x ∈ c1 ↔ x ∈ c2) : ∀ x, x ∈ c1.keys ↔ x ∈ c2.keys := by
-  intro x
-  simp only [Cols.keys, List.mem_filter, h]
-
-theorem rowsKeyDetermined_congr (c1 c2 : Cols) (h : ∀ x, x ∈ c1 ↔ x ∈ c2) (rows : List Row) :
-    rowsKeyDetermined c1 rows = rowsKeyDetermined c2 rows := by
-  unfold rowsKeyDetermined
-  congr 1
-  funext a
-  congr 1
-  funext b
-  rw [agree_congr a b c1.keys c2.keys (keys_congr c1 c2 h), agree_congr a b c1 c2 h]
-
-theorem firstOcc_congr (c1 c2 : Cols) (h : ∀ x, x ∈ c1 ↔ x ∈ c2) (rows : List Row) :
-    firstOcc c1 rows = firstOcc c2 rows := by
-  simp only [firstOcc, firstOccAux_eq_by]
-  have := firstOccBy_congr_obs (fun r : Row => r.proj c1) (fun r : Row => r.proj c2) [] rows (by
-    intro a b _ _
-    rw [← agree_iff_proj, ← agree_iff_proj, agree_congr a b c1 c2 h])
-  simpa using this
-
 theorem UOp.sem_congr (op : UOp) (c1 c2 : Cols) (h : ∀ x, x ∈ c1 ↔ x ∈ c2) (rows : List Row) :
     op.sem c1 rows = op.sem c2 rows := by
   cases op <;> simp only [UOp.sem]
@@ -428,71 +399,6 @@ theorem wfOn_congr (op : UOp) (c1 c2 : Cols) (h : ∀ x, x ∈ c1 ↔ x ∈ c2) 
 
 theorem finishApply_identity (t : Rel) : UOp.identity.finishApply t = .ok .same := by
   cases t <;> (unfold UOp.finishApply; simp [UOp.noopOn])
-
-/-! ### Construction histories inside one iteration engine -/
-
-/-- A history of public factory calls: `leaf` = `engine.make_leaf(..., payload=rows)`,
-`op o b` = `b.with_…(o)` / `o.apply(b)` with default options, `chain a b` = `a.chain(b)`,
-`mat` = `b.materialized(name)` (the allocation id names the new marker object, if one is made). -/
-inductive Build where
-  | leaf (oid : Nat) (cols : Cols) (name : String) (mn : Nat) (mx : Option Nat) (msgs : Nat)
-  | op (o : UOp) (b : Build)
-  | chain (a b : Build)
-  | mat (oid : Nat) (name : String) (b : Build)
-
-/-- The tree the library builds for a history (`Except.error` = the factory call raises). -/
-def Build.tree (st : Store) (eng : Engine) : Build → Except Err Rel
-  | .leaf oid cols name mn mx msgs => .ok (.leaf oid eng cols name mn mx true msgs)
-  | .op o b =>
-    match Build.tree st eng b with
-    | .error e => .error e
-    | .ok t =>
-      match applyOp st defaultFuel (.u o) t {} with
-      | .error e => .error e
-      | .ok res => .ok (res.get t)
-  | .chain a b =>
-    match Build.tree st eng a with
-    | .error e => .error e
-    | .ok ta =>
-      match Build.tree st eng b with
-      | .error e => .error e
-      | .ok tb =>
-        match binaryApply st defaultFuel .chain ta tb with
-        | .error e => .error e
-        | .ok res => .ok (res.get ta tb)
-  | .mat oid name b =>
-    match Build.tree st eng b with
-    | .error e => .error e
-    | .ok t =>
-      match materialize st defaultFuel t name with
-      | .error e => .error e
-      | .ok .same => .ok t
-      | .ok (.new (.mat _ n t')) => .ok (.mat oid n t')
-      | .ok (.new x) => .ok x
-
-/-- The columns the history promises (specification, not read off the library's tree). -/
-def Build.cols : Build → Cols
-  | .leaf _ cols _ _ _ _ => cols
-  | .op o b => o.appliedColumns b.cols
-  | .chain a _ => a.cols
-  | .mat _ _ b => b.cols
-
-/-- **Direct evaluation of the applied operation sequence.** -/
-def Build.direct (σ : Leaves) : Build → List Row
-  | .leaf oid _ _ _ _ _ => σ oid
-  | .op o b => o.sem (o.appliedColumns b.cols) (Build.direct σ b)
-  | .chain a b => Build.direct σ a ++ Build.direct σ b
-  | .mat _ _ b => Build.direct σ b
-
-/-- Preconditions on the history: truthful leaves, well-formed applications (arities), and the
-documented contract of key columns for every deduplication (stated on the *direct* rows). -/
-def Build.ok (σ : Leaves) : Build → Prop
-  | .leaf oid cols _ mn mx _ =>
-    RowsHaveCols (σ oid) cols ∧ mn ≤ (σ oid).length ∧ (∀ m, mx = some m → (σ oid).length ≤ m)
-  | .op o b => Build.ok σ b ∧ o.arityOk = true ∧
-      (o.isDedup = true → rowsKeyDetermined b.cols (Build.direct σ b) = true)
-  | .chain a b => Build.ok σ a ∧ Build.ok σ b
-  | .mat _ _ b => Build.ok σ b
 
 /-- What is true of the tree built for a history. -/
 structure Built (σ : Leaves) (eng : Engine) (b : Build) (r : Rel) : Prop where
